@@ -35,6 +35,17 @@ type Case struct {
 	// wire→backend only.
 	LexSeed int64  `json:"lex_seed,omitempty"` // 0 = plain rendering
 	CType   string `json:"ctype,omitempty"`
+
+	// Overlap family: the members are in flight together through ONE
+	// caldav.Client (client→wire) or ONE caldav.Handler (wire→backend) at
+	// GOMAXPROCS = Procs; OrderSeed decides the order in which the parked
+	// requests are read / released. Every member has a unique Path.
+	Group     []*Case `json:"group,omitempty"`
+	Procs     int     `json:"procs,omitempty"`
+	OrderSeed int64   `json:"order_seed,omitempty"`
+	// Uniform: the members are copies of one request differing only in a
+	// same-length marker (so that their documents have the same length).
+	Uniform bool `json:"uniform,omitempty"`
 }
 
 const (
